@@ -48,6 +48,8 @@ const (
 )
 
 var _zeroDate time.Time
+
+var _timeType = reflect.TypeOf(_zeroDate)
 var _dateType = reflect.TypeOf(time.Now())
 
 func dateTag(tag byte) bool {
